@@ -99,6 +99,7 @@ type pathState struct {
 	steps   int
 	summaries, summaryPaths int
 	lazy    []*smt.Term
+	keys, keygens, signs, rands int
 	hashApps []hashApp
 	fresh   int
 	notes   []string
